@@ -3,7 +3,7 @@
 use crate::error::JsError;
 use crate::interpreter::Interpreter;
 use crate::prelude::{Box, Vec, index_map_new, index_map_with_capacity, vec};
-use crate::value::{CheapClone, ExoticObject, Guarded, JsMapKey, JsValue, PropertyKey};
+use crate::value::{ExoticObject, Guarded, JsMapKey, JsValue, PropertyKey};
 
 /// Initialize Map.prototype with get, set, has, delete, clear, forEach methods
 pub fn init_map_prototype(interp: &mut Interpreter) {
@@ -388,8 +388,7 @@ pub fn map_entries(
         .set_property(index_key, JsValue::Number(0.0));
 
     // Add next() method
-    let next_fn = interp.create_native_function("next", map_iterator_next, 0);
-    guard.guard(next_fn.cheap_clone());
+    let next_fn = interp.create_native_function_with_guard(&guard, "next", map_iterator_next, 0);
     iter_obj
         .borrow_mut()
         .set_property(next_key, JsValue::Object(next_fn));
@@ -399,8 +398,8 @@ pub fn map_entries(
     let iterator_symbol =
         crate::value::JsSymbol::new(well_known.iterator, Some(interp.intern("Symbol.iterator")));
     let iterator_key = crate::value::PropertyKey::Symbol(Box::new(iterator_symbol));
-    let self_iterator_fn = interp.create_native_function("[Symbol.iterator]", map_iterator_self, 0);
-    guard.guard(self_iterator_fn.cheap_clone());
+    let self_iterator_fn =
+        interp.create_native_function_with_guard(&guard, "[Symbol.iterator]", map_iterator_self, 0);
     iter_obj
         .borrow_mut()
         .set_property(iterator_key, JsValue::Object(self_iterator_fn));
